@@ -78,6 +78,7 @@ pub fn common(_case: &Case, out: &Outcome, h: &Hist) -> Vec<Violation> {
             "overlap" => "overlap",
             "api_panicked" => "api_panicked",
             "c11_timeout_not_raised" => "c11_timeout_not_raised",
+            "c11_nested_misreported" => "c11_nested_misreported",
             _ => "invariant",
         };
         v.push(Violation::new(r, detail.clone()));
